@@ -39,6 +39,8 @@ type smtPrinter struct {
 	exOrd  []string
 	seenBx map[string]bool
 	used   map[string]bool
+	scope  map[string]int
+	freeB  map[string]*Sort
 }
 
 func (p *smtPrinter) count(t *Term) {
@@ -96,6 +98,14 @@ func (p *smtPrinter) raw(t *Term) string {
 		return fmt.Sprintf("strlit!%d", t.Idx)
 	case "const", "bvar":
 		p.used[t.Name] = true
+		if t.Op == "bvar" && p.scope[t.Name] == 0 {
+			// a bound variable of a specification quantifier that occurs free here (side obligation raised
+			// while evaluating the quantifier body): an arbitrary constant
+			if p.freeB == nil {
+				p.freeB = map[string]*Sort{}
+			}
+			p.freeB[t.Name] = t.Sort
+		}
 		return sym(t.Name)
 	case "app":
 		p.used[t.Name] = true
@@ -125,15 +135,24 @@ func (p *smtPrinter) raw(t *Term) string {
 		return fmt.Sprintf("((_ zero_extend %d)%s)", t.Idx, args())
 	case "extract":
 		return fmt.Sprintf("((_ extract %d 0)%s)", t.Idx-1, args())
+	case "bvbit":
+		return fmt.Sprintf("(= #b1 ((_ extract %d %d)%s))", t.Idx, t.Idx, args())
 	case "constarr":
 		return fmt.Sprintf("((as const %s)%s)", t.Sort.Name, args())
 	case "forall", "exists":
 		var sb strings.Builder
 		sb.WriteString("(" + t.Op + " (")
+		if p.scope == nil {
+			p.scope = map[string]int{}
+		}
 		for _, b := range t.Bound {
 			fmt.Fprintf(&sb, "(%s %s)", sym(b.Name), b.Sort.Name)
+			p.scope[b.Name]++
 		}
 		sb.WriteString(") " + p.term(t.Args[0]) + ")")
+		for _, b := range t.Bound {
+			p.scope[b.Name]--
+		}
 		return sb.String()
 	case "cell":
 		return fmt.Sprintf("(- %d)", t.Idx)
@@ -181,8 +200,14 @@ func (c *Ctx) Query(assumptions []*Term, negGoals []*Term, labels []string) stri
 	for _, g := range negGoals {
 		p.count(g)
 	}
+	for _, ax := range c.axioms {
+		p.count(ax)
+	}
 	var body strings.Builder
 	var asserts []string
+	for _, ax := range c.axioms {
+		asserts = append(asserts, "(assert "+p.term(ax)+")")
+	}
 	for _, a := range assumptions {
 		asserts = append(asserts, "(assert "+p.term(a)+")")
 	}
@@ -241,6 +266,9 @@ func (c *Ctx) Query(assumptions []*Term, negGoals []*Term, labels []string) stri
 		}
 		fmt.Fprintf(&hd, "(declare-fun %s (%s) %s)\n", sym(d.Name), strings.Join(ps, " "), symSort(d.Result))
 	}
+	for _, n := range sortedKeys(p.freeB) {
+		fmt.Fprintf(&hd, "(declare-fun %s () %s)\n", sym(n), symSort(p.freeB[n]))
+	}
 	for _, n := range p.exOrd {
 		hd.WriteString(p.extra[n] + "\n")
 	}
@@ -293,9 +321,6 @@ func (c *Ctx) Query(assumptions []*Term, negGoals []*Term, labels []string) stri
 			ps, sym(un), sym(name), sym(is), sym(name), sym(name), k, sym(name))
 		fmt.Fprintf(&hd, "(assert (forall ((v Iface)) (! (=> (%s v) (and (= (iface_tag v) %d) (= (%s (%s v)) v))) :pattern ((%s v)))))\n",
 			sym(is), k, sym(name), sym(un), sym(is))
-	}
-	for _, ax := range c.axioms {
-		asserts = append([]string{"(assert " + p.term(ax) + ")"}, asserts...)
 	}
 	body.WriteString(hd.String())
 	for _, d := range p.defs {
